@@ -37,3 +37,11 @@ package ast
 //@   assigns nothing
 //@   ensures result != nil && fresh(result)
 //@   ensures loc != nil ==> result.Start == loc.Start && result.End == loc.End && result.Source == loc.Source
+
+//@ func FragmentDefinition.GetSelectionSet
+//@   props C01
+//@   functional
+//@   assigns nothing
+//@   nopanic
+//@   requires fd != nil
+//@   ensures result == fd.SelectionSet
